@@ -1,11 +1,33 @@
 package main
 
 import (
+	"bytes"
 	"fmt"
 	"go/ast"
+	"go/printer"
 	"go/token"
+	"os"
+	"path/filepath"
 	"strings"
 )
+
+func exprString(e ast.Expr) string {
+	var buf bytes.Buffer
+	printer.Fprint(&buf, fset, e)
+	return buf.String()
+}
+
+func goFilesUnder(dir string) []string {
+	var out []string
+	filepath.Walk(filepath.Join(repo, dir), func(p string, info os.FileInfo, err error) error {
+		if err == nil && !info.IsDir() && strings.HasSuffix(p, ".go") && !strings.HasSuffix(p, "_test.go") && !strings.Contains(p, "verif") {
+			rel, _ := filepath.Rel(repo, p)
+			out = append(out, rel)
+		}
+		return nil
+	})
+	return out
+}
 
 // facts about main.go's round loop that C18 / C22 / C24 rest on
 func genMainFacts() {
@@ -91,9 +113,64 @@ func genMainFacts() {
 		return true
 	})
 	preloadBeforeTarget = prePos != token.NoPos && tgtPos != token.NoPos && prePos < tgtPos
+	// 4. call points: recorded only in the check round and not on the look-ahead copy; the copy is marked in beforeEval
+	cf := parseFile("eval/method_evaluator/core.go")
+	nm := findFunc(cf, "", "NewMethodEvaluator")
+	guard := false
+	ast.Inspect(nm.Body, func(n ast.Node) bool {
+		is, ok := n.(*ast.IfStmt)
+		if !ok {
+			return true
+		}
+		src := exprString(is.Cond)
+		appends := false
+		ast.Inspect(is.Body, func(m ast.Node) bool {
+			if se, ok := m.(*ast.SelectorExpr); ok && se.Sel.Name == "MethodCallPoint" {
+				appends = true
+			}
+			return true
+		})
+		if appends && strings.Contains(src, "IsCheckRound()") && strings.Contains(src, "!p.IsLookAhead") {
+			guard = true
+		}
+		return true
+	})
+	// no other writer of MethodCallPoint in eval/
+	writers := 0
+	for _, rel := range goFilesUnder("eval") {
+		ff := parseFile(rel)
+		ast.Inspect(ff, func(n ast.Node) bool {
+			if as, ok := n.(*ast.AssignStmt); ok {
+				for _, l := range as.Lhs {
+					if strings.Contains(exprString(l), "MethodCallPoint[") {
+						writers++
+					}
+				}
+			}
+			return true
+		})
+	}
+	iff := parseFile("eval/ifunless.go")
+	be := findFunc(iff, "IfUnless", "beforeEval")
+	marked := false
+	valueParam := false
+	for _, fld := range be.Type.Params.List {
+		if exprString(fld.Type) == "parser.Parser" {
+			valueParam = true // by value: the mark cannot leak to the caller's parser
+		}
+	}
+	ast.Inspect(be.Body, func(n ast.Node) bool {
+		if as, ok := n.(*ast.AssignStmt); ok && len(as.Lhs) == 1 && exprString(as.Lhs[0]) == "p.IsLookAhead" && exprString(as.Rhs[0]) == "true" {
+			marked = true
+		}
+		return true
+	})
 	var b strings.Builder
 	b.WriteString("namespace RubyTi.Gen\n")
 	b.WriteString("/-- syntactic facts about main.go (re-extracted on every run) -/\n")
+	fmt.Fprintf(&b, "def callPointGuarded : Bool := %v\n", guard)
+	fmt.Fprintf(&b, "def callPointWriters : Nat := %d\n", writers)
+	fmt.Fprintf(&b, "def lookAheadMarkedOnCopy : Bool := %v\n", marked && valueParam)
 	fmt.Fprintf(&b, "def mainLoadReturnsBeforeOutput : Bool := %v\n", loadBeforeOutput)
 	fmt.Fprintf(&b, "def mainHintsFilteredByFile : Bool := %v\n", filtered)
 	fmt.Fprintf(&b, "def mainPreloadIsLoad : Bool := %v\n", preTrue)
